@@ -742,7 +742,11 @@ def inline_call(fn, call, ev, ev_factory=None):
 
 def cmp_struct(ev, test):
     """For a simple comparison `a OP b` return (Term a-b, OP-symbol) with the canonical
-    orientation used by Evaluator.cond; None for anything else."""
+    orientation used by Evaluator.cond; None for anything else.  `not (a OP b)` is read as the complementary
+    comparison (the quantities compared by the rules are integers)."""
+    if isinstance(test, ast.UnaryOp) and isinstance(test.op, ast.Not):
+        inner = cmp_struct(ev, test.operand)
+        return None if inner is None else (inner[0], NEG[inner[1]])
     if isinstance(test, ast.Compare) and len(test.ops) == 1:
         a, b = ev.ev(test.left), ev.ev(test.comparators[0])
         sym = {ast.Lt: "<", ast.LtE: "<=", ast.Gt: ">", ast.GtE: ">=", ast.Eq: "==", ast.NotEq: "!="}.get(type(test.ops[0]))
